@@ -323,6 +323,24 @@ ADDED = {
     "C20": "Also: keyword arguments named like the proxy's own plumbing, a plain method carrying __wrapped__ of a coroutine function, RuntimeError from "
            "owner-loop calls, and after every burst (before any await) each cross-thread coroutine body must have begun on the owner's loop.",
 }
+# round 7
+ADDED7 = {
+    "C04": "All 256 code bytes of RSTACK and ERROR (zero and unnamed ones included) are enumerated, alone and followed by a DATA frame, in one read or two.",
+    "C05": "The host's own reset requests (RST written) occur at generated instants; enumerated for a link that failed by ERROR / silence / NAKs, with "
+           "sends submitted between the request and the RSTACK (they must fail at once and write nothing) and after it.",
+    "C08": "Frames are also fed to a handler that has received frames before: the same frame once or twice, or another mutated frame (enumerated for "
+           "unknown frame IDs and known IDs with undecodable payloads in every version).",
+    "C09": "Further: the NCP stops answering until the host gives up on the link by itself before the second reset; duplicated frames that arrive in the "
+           "same read as the original; the simulated NCP considers its version set only by a version command naming its own version; an exception that "
+           "escapes the host's data_received() is a violation.",
+    "C10": "A sixth workload issues commands from other tasks while the reset is under way (RST written, RSTACK outstanding).",
+    "C11": "An earlier reset on the same connection (answered in time at several instants, or timed out) precedes the request at gaps that put its "
+           "5 s mark inside the request under test; the request must end at the instant of its deciding event or exactly at its own timeout.",
+    "C14": "Link-key and child tables are compared as multisets (an entry read back twice is a difference); the application may have read the NCP's "
+           "earlier network before the restore.",
+    "C19": "Failed keep-alives are placed on and around the request that carries sequence byte 255 of the protocol handler (single failures and runs of six).",
+    "C20": "Coroutine calls submitted just before force_stop() while the owner's loop is busy (queued, not yet begun) must also get an outcome.",
+}
 RUNNER_NOTE = " In every run each fourth worker shard executes with debug logging switched on (into a null handler)."
 
 
@@ -336,6 +354,8 @@ def main():
         cat, text, note, tech, ref = CHECKS[pid]
         if pid in ADDED:
             text = text + " " + ADDED[pid]
+        if pid in ADDED7:
+            text = text + " " + ADDED7[pid]
         note = note + RUNNER_NOTE
         checks.append({
             "property_id": pid,
